@@ -614,7 +614,7 @@ type worker struct {
 var theWorker *worker
 
 const (
-	hangCPUTicks = 200 // 2 s of CPU time spent on one payload of a few hundred bytes
+	hangCPUTicks = 300 // 3 s of CPU time spent on one payload of a few hundred bytes
 	hangWallCap  = 5 * time.Minute
 )
 
@@ -633,7 +633,12 @@ func startWorker() *worker {
 	if err := cmd.Start(); err != nil {
 		panic(err)
 	}
-	return &worker{cmd: cmd, in: in, out: bufio.NewReaderSize(out, 1<<20)}
+	w := &worker{cmd: cmd, in: in, out: bufio.NewReaderSize(out, 1<<20)}
+	// handshake: process start-up (runtime and package initialisation) must not count against the first payload
+	if l, err := w.out.ReadString('\n'); err != nil || strings.TrimSpace(l) != "ready" {
+		panic("expo worker did not start: " + l)
+	}
+	return w
 }
 
 func stopWorker() {
@@ -648,6 +653,8 @@ func stopWorker() {
 func workerMain() {
 	rd := bufio.NewReaderSize(os.Stdin, 1<<20)
 	wr := bufio.NewWriter(os.Stdout)
+	fmt.Fprintln(wr, "ready")
+	wr.Flush()
 	for {
 		line, err := rd.ReadString('\n')
 		if err != nil {
